@@ -98,13 +98,15 @@ where
         buffer: &mut DumpBuf,
         dirent: Option<MDRawDirectory>,
     ) -> std::result::Result<(), FileWriterError> {
-        if let Some(dirent) = dirent {
-            self.dump_dir_entry(buffer, dirent)?;
-        }
-
+        // Append the new data first and publish the directory entry afterwards, so that an
+        // entry in the destination never refers to data that has not been written yet.
         let start_pos = self.last_position_written_to_file as usize;
         self.destination.write_all(&buffer[start_pos..])?;
         self.last_position_written_to_file = buffer.position();
+
+        if let Some(dirent) = dirent {
+            self.dump_dir_entry(buffer, dirent)?;
+        }
         #[cfg(feature = "verif-hooks")]
         crate::verif_hooks::sync(crate::verif_hooks::Point::Flushed(self.curr_idx as u32));
         Ok(())
